@@ -61,9 +61,10 @@ where
         self.role
     }
 
-    /// Returns the number of opened streams in the `dir` direction.
+    /// Returns the number of opened streams in the `dir` direction that the peer's limit allows to be used:
+    /// after a rejected 0-RTT the limit may be below the number of streams already opened.
     fn opened_streams(&self, dir: Dir) -> u64 {
-        self.unallocated[dir as usize]
+        self.unallocated[dir as usize].min(self.max[dir as usize])
     }
 
     /// Receive the [`MaxStreamsFrame`](`crate::frame::MaxStreamsFrame`) from peer,
